@@ -10,6 +10,7 @@ import (
 	"github.com/youchainhq/go-youchain/consensus/ucon"
 	"github.com/youchainhq/go-youchain/core/types"
 	"github.com/youchainhq/go-youchain/crypto"
+	"github.com/youchainhq/go-youchain/params"
 	"github.com/youchainhq/go-youchain/rlp"
 	"github.com/youchainhq/go-youchain/you"
 )
@@ -238,9 +239,10 @@ func (w *world) hostileStim(c *conn, code uint64) stim {
 		case 0:
 			q.Amount, s.label = maxU64(), "amount=2^64-1 from 0"
 		case 1:
-			q.Amount, s.label = 1<<31, "amount=2^31 from 0"
+			q.Amount, s.label = 1<<63, "amount=2^63 from 0"
 		case 2:
-			q.Amount, s.label = 1<<32+1, "amount=2^32+1 from 0"
+			// large, but small enough that a server which sized a buffer by it would not take the machine down
+			q.Amount, s.label = 1<<24+uint64(r.C.Intn("more", 1<<24)), "amount between 2^24 and 2^25 from 0"
 		case 3:
 			q.Origin.Number, q.Skip, q.Amount, s.label = 1, maxU64(), 5, "skip=2^64-1"
 		case 4:
@@ -349,7 +351,11 @@ func (w *world) hostileStim(c *conn, code uint64) stim {
 		s.payload = enc(a)
 	case you.NewBlockMsg:
 		var b *types.Block
-		switch r.C.Intn("hostile-block", 9) {
+		switch r.C.Intn("hostile-block", 12) {
+		case 9, 10, 11:
+			how := ""
+			b = w.tamper(next, func(h *types.Header) { how = w.fieldHostile(h) }, nil)
+			s.label = fmt.Sprintf("block %d with %s", next, how)
 		case 0:
 			other := w.full[1+(next%uint64(len(w.full)-1))]
 			if other.NumberU64() == next {
@@ -463,6 +469,79 @@ func (w *world) hostileStim(c *conn, code uint64) stim {
 		s.label, s.payload = "junk bytes", r.C.Bytes("junk", 1+r.C.Intn("len", 64))
 	}
 	return s
+}
+
+// fieldHostile gives one header field a value of the right type and a hostile meaning: what the
+// header verification looks at before (hashed fields) and after (Validator, Signature,
+// Certificate are not hashed) it checks the proposer's signature.
+func (w *world) fieldHostile(h *types.Header) string {
+	c := w.r.C
+	junk := func(label string, n int) []byte { return c.Bytes(label, n) }
+	cut := func(b []byte) []byte {
+		if len(b) == 0 {
+			return []byte{1}
+		}
+		return append([]byte{}, b[:c.Intn("cut", len(b))]...)
+	}
+	switch c.Intn("header-field", 18) {
+	case 0:
+		h.Consensus = cut(h.Consensus)
+		return "truncated Consensus"
+	case 1:
+		h.Consensus = junk("consensus", 1+c.Intn("len", 300))
+		return "junk Consensus"
+	case 2:
+		h.Consensus = []byte{}
+		return "empty Consensus"
+	case 3:
+		h.CurrVersion = params.YouVersion(50 + c.Intn("version", 200))
+		return "unknown CurrVersion"
+	case 4:
+		h.Signature = cut(h.Signature)
+		return "truncated Signature"
+	case 5:
+		h.Signature = append(append([]byte{}, h.Signature...), 0x01)
+		return "Signature of 66 bytes"
+	case 6:
+		h.Signature = append([]byte{}, h.Signature...)
+		if len(h.Signature) == 65 {
+			h.Signature[64] = byte(2 + c.Intn("v", 250))
+		}
+		return "Signature with an out-of-range recovery id"
+	case 7:
+		h.Validator = cut(h.Validator)
+		return "truncated Validator (same hash)"
+	case 8:
+		h.Validator = junk("validator", 1+c.Intn("len", 700))
+		return "junk Validator (same hash)"
+	case 9:
+		h.Validator = []byte{}
+		return "empty Validator (same hash)"
+	case 10:
+		h.Certificate = junk("certificate", 1+c.Intn("len", 700))
+		return "junk Certificate (same hash)"
+	case 11:
+		h.MixDigest = common.Hash{}
+		return "zero MixDigest"
+	case 12:
+		h.Extra = make([]byte, 5000)
+		return "5000 bytes of Extra"
+	case 13:
+		h.SlashData = junk("slash", 1+c.Intn("len", 200))
+		return "junk SlashData"
+	case 14:
+		h.ChtRoot, h.BltRoot = junk("cht", 32), junk("blt", 32)
+		return "CHT and BLT roots on an ordinary block"
+	case 15:
+		h.GasLimit = 0
+		return "GasLimit 0"
+	case 16:
+		h.Time = 1
+		return "Time 1 (older than the parent)"
+	default:
+		h.NextVersion, h.NextApprovals, h.NextVoteBefore, h.NextSwitchOn = params.YouVersion(9), maxU64(), maxU64(), maxU64()
+		return "an upgrade proposal with 2^64-1 everywhere"
+	}
 }
 
 func lenPrefixList(l int) []byte {
